@@ -183,4 +183,30 @@ def optUnitOkF : Option F → Bool
 /-- `Clip._validate_times` on floats: raise when `start_time > end_time` is true -/
 def clipOkF (startTime endTime : F) : Bool := !(F.gt startTime endTime)
 
+/-! ### the numbers on the AOEF path
+
+`soundevent.io.load` builds every object with the constructor of its data class
+(`XAdapter.assemble_soundevent`); these are the numbers of the AOEF object as the adapter hands
+them to the constructor (tied to the adapters by symbolic traces: unchanged, not swapped, not
+clamped), and the decision of the constructor on them. -/
+
+/-- `ClipAdapter.assemble_soundevent`: `(start_time, end_time)` handed to `data.Clip` -/
+def aoefClipArgs (startTime endTime : Rat) : Rat × Rat := (startTime, endTime)
+/-- `MatchAdapter.assemble_soundevent`: `(affinity, score)` handed to `data.Match` -/
+def aoefMatchArgs (affinity score : Rat) : Rat × Rat := (affinity, score)
+/-- `ClipEvaluationAdapter.assemble_soundevent`: `score` handed to `data.ClipEvaluation` -/
+def aoefEvalScoreArg (score : Rat) : Rat := score
+/-- `SoundEventPredictionAdapter` / `SequencePredictionAdapter.assemble_soundevent` on an object with
+    two tags: the score handed to the prediction and the scores handed to each `data.PredictedTag` -/
+def aoefPredictionArgs (score tag0 tag1 : Rat) : Rat × Rat × Rat := (score, tag0, tag1)
+/-- `ClipPredictionsAdapter.assemble_soundevent` on an object with two tags -/
+def aoefClipTagArgs (tag0 tag1 : Rat) : Rat × Rat := (tag0, tag1)
+
+def aoefClipOk (s e : Rat) : Bool := clipOk (aoefClipArgs s e).1 (aoefClipArgs s e).2
+def aoefMatchNumbersOk (a sc : Rat) : Bool := unitOk (aoefMatchArgs a sc).1 && unitOk (aoefMatchArgs a sc).2
+def aoefEvalScoreOk (x : Rat) : Bool := unitOk (aoefEvalScoreArg x)
+def aoefPredictionOk (x t0 t1 : Rat) : Bool :=
+  unitOk (aoefPredictionArgs x t0 t1).1 && unitOk (aoefPredictionArgs x t0 t1).2.1 && unitOk (aoefPredictionArgs x t0 t1).2.2
+def aoefClipTagsOk (t0 t1 : Rat) : Bool := unitOk (aoefClipTagArgs t0 t1).1 && unitOk (aoefClipTagArgs t0 t1).2
+
 end SE.Relational
